@@ -128,8 +128,9 @@ prop("C13", engine="inh", worker="make_inh_trace", prefixes=["C13."], level="mod
      mc=("MxInherit", "MC_MxInherit_quick.cfg", "MC_MxInherit_thorough.cfg"),
      mbt_opts={"deep": True, "checkdefs": True, "handles": True},
      jobs=lambda tier: [("delete", dict()), ("inherit", dict()),
-                        ("dyn-delete", dict(_worker="make_dyn_trace"))],
-     quick=dict(traces=192, nops=25), thorough=dict(traces=4800, nops=40),
+                        ("dyn-delete", dict(_worker="make_dyn_trace")),
+                        ("edit", dict(_worker="make_eval_trace"))],
+     quick=dict(traces=224, nops=25), thorough=dict(traces=5600, nops=40),
      # "no value computed from the deleted object survives": stale values count
      also=["C07.HandleDeadOrCurrent", "C02.NoStale"])
 
